@@ -22,6 +22,9 @@ def build_rec(cls, fields):
         return nodes.End(fields['name'], fields['space'], fields['prefix'], fields['suffix'])
     if cls == 'compiler.py::Compiler':
         return None
+    if cls == 'template.py::BaseTemplate':
+        import types
+        return types.SimpleNamespace(**fields)
     if cls == 'builtins::ListIter':
         return dict(fields)
     raise Unbuildable('no builder for %s' % cls)
